@@ -39,10 +39,11 @@ def xgcm_modules():
     import xgcm  # noqa
     import xgcm.axis, xgcm.grid, xgcm.grid_ufunc, xgcm.gridops, xgcm.padding, xgcm.metrics  # noqa
     import xgcm.comodo, xgcm.sgrid, xgcm.metadata_parsers  # noqa
+    import xgcm.transform  # noqa  (needs the numba stand-in of /verif/stubs on sys.path)
 
     return {n: sys.modules["xgcm." + n] for n in
             ("axis", "grid", "grid_ufunc", "gridops", "padding", "metrics", "comodo", "sgrid",
-             "metadata_parsers")}
+             "metadata_parsers", "transform")}
 
 
 def std_patches(mods=None, sets=False):
@@ -61,6 +62,9 @@ def std_patches(mods=None, sets=False):
         (m["grid_ufunc"], "np", NPModel),
         (m["gridops"], "np", NPModel),
         (m["grid"], "Dask_Array", _DaskTokenType()),
+        (m["transform"], "xr", XRModel),
+        (m["transform"], "np", NPModel),
+        (m["transform"], "len", symlen),
     ]
     if sets:
         for k in ("padding",):
